@@ -278,6 +278,53 @@ def joint(cx):
     cx.check(flag_ok, "commit-flag", "joint group-commit flag = incoming flag && outgoing flag")
 
 
+def _fold_counters(cx, yes, missing):
+    """Second form of the two counters: `let (yes, missing) = voters.iter().fold((0, 0), |(y, m), v| match check(*v) {..})`.
+    Decides the same three facts (what `yes` counts, what `missing` counts, by one) on the closure's return table."""
+    from ..idioms import closure_returns
+    if yes is None or missing is None or yes[0] != "tfield" or missing[0] != "tfield" or yes[1] != missing[1] or {yes[2], missing[2]} != {0, 1}:
+        return False
+    fo = yes[1]
+    if not (fo[0] == "call" and fo[1].endswith("::fold") and len(fo[2]) == 3 and fo[2][2][0] == "closure"):
+        return False
+    it, init, clos = fo[2]
+    cx.check(contains(fld("Configuration.voters"), it), "counters:over", "the counters are folded over the voters of this configuration")
+    cx.check(init == ("tuple", (("int", 0), ("int", 0))), "counters:init", "both counters start at zero")
+    rows = closure_returns(cx.prog, clos[1]) or []
+    yi, mi = yes[2], missing[2]
+    ok = bool(rows)
+    seen = set()
+    for r in rows:
+        lits, v = r[0], r[1]
+        if v[0] != "tuple" or len(v[1]) != 2:
+            ok = False
+            continue
+        acc = [x[1] for x in v[1] if x[0] == "tfield"] + [y[1] for x in v[1] if x[0] == "bin" for y in x[2:4] if y[0] == "tfield"]
+        if not acc or any(a_ != acc[0] for a_ in acc):
+            ok = False
+            continue
+        A = acc[0]
+        same = lambda i: v[1][i] == ("tfield", A, i)
+        plus1 = lambda i: v[1][i][0] == "bin" and v[1][i][1] == "Add" and set(v[1][i][2:4]) == {("int", 1), ("tfield", A, i)}
+        opt = [l for l in lits if l[0] == "in" and l[3] == "core::option::Option"]
+        none = any(l[2] == frozenset(["None"]) for l in opt)
+        some = any(l[2] == frozenset(["Some"]) for l in opt)
+        granted = [l[2] for l in lits if l[0] == "is" and l[1][0] == "vfield"]
+        if none:
+            ok = ok and same(yi) and plus1(mi)
+            seen.add("none")
+        elif some and granted == [True]:
+            ok = ok and plus1(yi) and same(mi)
+            seen.add("yes")
+        elif some and granted == [False]:
+            ok = ok and same(yi) and same(mi)
+            seen.add("no")
+        else:
+            ok = False
+    cx.check(ok and seen == {"none", "yes", "no"}, "counters:fold", "the fold adds one to `yes` exactly for check(v) == Some(true), one to `missing` exactly for None, nothing for Some(false)")
+    return True
+
+
 @obligation("QUORUM.vote_counts", ["C02", "C11"], floor=3, kind="return shape",
             why="Won with fewer than a majority of grants elects a leader without a quorum")
 def vote_counts(cx):
@@ -312,6 +359,8 @@ def vote_counts(cx):
     def counter_local(e):
         return e[1] if e is not None and e[0] == "phi" else None
     ly, lm = counter_local(yes), counter_local(missing)
+    if ly is None and lm is None and _fold_counters(cx, yes, missing):
+        return
     cx.check(ly is not None and lm is not None and ly != lm, "counters", "two distinct counters feed the thresholds")
     if ly is None or lm is None:
         return
@@ -350,6 +399,8 @@ def group_le(cx):
             continue
         if match(fld("Index.index", call("~Option::unwrap", call("~last", ANY))), idx):
             continue  # smallest element of the descending sort
+        if match(fld("Index.index", ("index", ANY, ("bin", "Sub", ("len", ANY), ("int", 1)))), idx) or match(fld("Index.index", ("index", ANY, ("bin", "Sub", call("~len", ANY), ("int", 1)))), idx):
+            continue  # the same, written matched[matched.len() - 1]
         if idx == ("int", 18446744073709551615):
             continue
         bad.append(show(idx)[:100])
@@ -376,6 +427,19 @@ def group_scan(cx):
                 v = a.expr_rvalue(st["rv"], (bi, si))
                 if is_item_gid(v) and f.body.local_name(st["place"]["l"]):
                     sets.append((Site(f, bi, si, "write"), st["place"]["l"]))
+    flags0 = []
+    for bi in sorted(a.reach):
+        for si, st in enumerate(f.body.blocks[bi]["stmts"]):
+            if st.get("k") == "assign" and not st["place"]["p"] and f.body.local_ty(st["place"]["l"]) == "bool" and f.body.local_name(st["place"]["l"]):
+                c = st["rv"].get("use", {}).get("const", {})
+                if c.get("ty") == "bool" and c.get("val", {}).get("int") == 0 and any(l[0] == "in" and l[2] == frozenset([0]) and is_item_gid(l[1]) for l in cx.guard_lits(Site(f, bi, si, "write"))):
+                    flags0.append((bi, si))
+    if not sets and not flags0:
+        # the scan is not written as a loop over the gathered buffer with a remembered group (it was re-implemented, e.g.
+        # over slices and iterator adaptors): this loop-shape clause has nothing to decide. The form-independent clause
+        # of the same property -- no returned index exceeds the quorum index -- is QUORUM.group_le's.
+        cx.abstain("the group scan is not in loop form; the loop-shape clause abstains (QUORUM.group_le still decides the upper bound)")
+        return
     cx.check(len(sets) == 1, "remember:site", "the scan remembers the group of the first grouped entry at one site (found %d)" % len(sets))
     n = 0
     for s, L in sets:
